@@ -826,6 +826,9 @@ func (in *Interp) symStore(p *Pointer, t types.Type, v Val) {
 	if kindOf(t) != kScalar {
 		in.end("unsupported", "symbolic-index store of %s in %s", t, in.where())
 	}
+	if in.ex != nil && in.ex.phase != 0 && in.ex.inOnce == 0 {
+		in.ex.fpW[in.ex.phase][in.heap.rd(p.obj)] = in.curFn()
+	}
 	o := in.heap.wr(p.obj)
 	sz := sizeof(t)
 	n := p.n
@@ -1134,8 +1137,15 @@ func (in *Interp) builtin(b *ssa.Builtin, args []Val, cc *ssa.CallCommon) Val {
 				in.memFault(err)
 			}
 		}
-		if in.ex != nil && in.ex.trackWrites {
-			in.ex.noteWrite(in, dst.obj)
+		if in.ex != nil && in.ex.phase != 0 && in.ex.inOnce == 0 {
+			in.ex.fpW[in.ex.phase][in.heap.rd(dst.obj)] = in.curFn()
+			if !src.obj.shared {
+				in.ex.fpR[in.ex.phase][in.heap.rd(src.obj)] = in.curFn()
+			}
+			if dst.obj.shared {
+				in.ex.events = append(in.ex.events, Event{Kind: "assert", Label: "C17:write-to-package-level-state", Origin: in.curFn(), Msg: dst.obj.name})
+				in.end("violation", "copy into shared state %s", dst.obj.name)
+			}
 		}
 		if so.id == do.id && so != do {
 			so = do
@@ -1198,8 +1208,8 @@ func (in *Interp) appendB(args []Val, cc *ssa.CallCommon) Val {
 	nl := dl + src.len
 	if nl <= dc {
 		do := in.heap.wr(dst.obj)
-		if in.ex != nil && in.ex.trackWrites {
-			in.ex.noteWrite(in, dst.obj)
+		if in.ex != nil && in.ex.phase != 0 && in.ex.inOnce == 0 {
+			in.ex.fpW[in.ex.phase][in.heap.rd(dst.obj)] = in.curFn()
 		}
 		so := in.heap.rd(src.obj)
 		if so.id == do.id {
